@@ -388,6 +388,9 @@ def r09_7(ctx, counts) -> RuleResult:
     return res
 
 
+from .c08_sequences import r08_8 as _r08_8  # noqa: E402
+
+
 def run(ctx) -> dict:
     model = ctx.model
     counts: dict[str, int] = {}
@@ -468,7 +471,8 @@ def run(ctx) -> dict:
             r2.ok()
     counts['uri_functions'] = n
     return {
-        'results': [r1, r2, r09_3(ctx, counts), r09_4(ctx, counts), r09_5(ctx, counts),
+        'results': [_r08_8(ctx, counts, ('substring',), 'R09.8'),
+                    r1, r2, r09_3(ctx, counts), r09_4(ctx, counts), r09_5(ctx, counts),
                     r09_6(ctx, counts), r09_7(ctx, counts)],
         'counts': counts,
         'explanation':
